@@ -4,7 +4,7 @@
 // Grid: password length {1,2,72,73,100} x salt length {1,16,64} x rounds {1,2,3,16,32} x key
 // length (every 1..70 and 96,97 for rounds 1 and, on a diagonal of shapes, rounds 2;
 // block-boundary lengths {1,31,32,33,63,64,65,96,97} for rounds 2,3; {1,32,33,65} for 16;
-// {1,33} for 32; every 1..200 for all rounds in thorough) + the maximal corner
+// {1,33} for 32; thorough: every 1..200 for rounds 1..3, every 1..70 and 96,97,128,129 for 16 and 32) + the maximal corner
 // (salt 2^20, key length 1024, 200) + the full product of valid/invalid argument classes.
 // Oracle: /verif/ref/bcryptpbkdfref (OpenBSD's algorithm incl. the strided output loop, on
 // pi-computed Blowfish tables; validated by decrypting seven ssh-keygen 9.2 keys).
@@ -45,7 +45,7 @@ func (b *blockCache) get(count int) []byte {
 }
 
 func run(c *vf.Ctx) {
-	c.Rule("pwlen{1,2,72,73,100} x saltlen{1,16,64} x rounds{1,2,3,16,32} x keylen (1..70,96,97 at rounds 1 and on a shape diagonal at rounds 2; {1,31,32,33,63,64,65,96,97} at rounds 2,3; {1,32,33,65} at 16; {1,33} at 32; thorough: 1..200 everywhere) " +
+	c.Rule("pwlen{1,2,72,73,100} x saltlen{1,16,64} x rounds{1,2,3,16,32} x keylen (1..70,96,97 at rounds 1 and on a shape diagonal at rounds 2; {1,31,32,33,63,64,65,96,97} at rounds 2,3; {1,32,33,65} at 16; {1,33} at 32; thorough: 1..200 at rounds 1..3, 1..70,96,97,128,129 at 16,32) " +
 		"+ corners (saltlen 2^20, keylen 200/1024) + product of argument classes pwlen{0,1} x saltlen{0,1,2^20,2^20+1} x rounds{-1,0,1} x keylen{1,1024,1025,4096}: error iff OpenBSD rejects; " +
 		"non-trivial = distinct (pwlen, saltlen, rounds, keylen) compared byte for byte with the model, keylen > 32 (strided interleave of several blocks) counted separately in 'multi_block_points'")
 	c.Assume("password/salt values: one seeded class per shape plus boundary classes on a sub-grid (both are collapsed by SHA-512 before use); values outside are not enumerated")
@@ -67,10 +67,15 @@ func run(c *vf.Ctx) {
 	keyLens := func(gi, rounds int) []int {
 		var out []int
 		switch {
-		case c.Thorough:
+		case c.Thorough && rounds <= 3:
 			for k := 1; k <= 200; k++ {
 				out = append(out, k)
 			}
+		case c.Thorough:
+			for k := 1; k <= 70; k++ {
+				out = append(out, k)
+			}
+			out = append(out, 96, 97, 128, 129)
 		case rounds == 1 || (rounds == 2 && (gi/5)%3 == (gi/15)%3): // rounds 2: full sweep on a diagonal of (pwlen, saltlen)
 			for k := 1; k <= 70; k++ {
 				out = append(out, k)
